@@ -370,7 +370,8 @@ namespace occa {
   bool dtype_t::isCyclic(const dtypeVector_t &vec,
                          const int cycleLength) {
     const int size = (int) vec.size();
-    if ((size % cycleLength) != 0) {
+    // A dtype that flattens to nothing (float x[0]) is not a cycle of anything
+    if (!cycleLength || ((size % cycleLength) != 0)) {
       return false;
     }
 
